@@ -23,10 +23,11 @@
 (***************************************************************************)
 EXTENDS ProvDispatchImplOps
 
-CONSTANTS Provs, NsArgs, SetupBehs, Targets, KeyU, GenDepth
+CONSTANTS Provs, NsArgs, SetupBehs, Targets, KeyU, GenDepth, MaxStore,
+          IwLevel, MethLevel     \* "full" | "lite": request shapes per type
 
-VARIABLES si, s, bad, obs, hist
-vars == <<si, s, bad, obs, hist>>
+VARIABLES si, s, bad, obs, hist, sel
+vars == <<si, s, bad, obs, hist, sel>>
 
 P(pid, ptype, base, cn, pcls) ==
   [pid |-> pid, ptype |-> ptype, base |-> base, cn |-> cn, pcls |-> pcls]
@@ -45,7 +46,15 @@ InvalidProvs ==
    P(11, "iw", "iw", "missing", <<>>), P(12, "iw", "iw", "str", <<"Z">>),
    P(17, "iw", "meth", "str", <<"A">>)}
 ProvsSmall == ValidProvs \cup InvalidProvs
+ProvsIw == {p \in ValidProvs : p.pid \in {1, 2}} \cup InvalidProvs
+ProvsMeth == {p \in ValidProvs : p.pid \in {3, 4}}
+             \cup {p \in InvalidProvs : p.pid \in {6, 17}}
+ProvsMix == {p \in ValidProvs : p.pid \in {1, 3}}
 ProvsBig == ValidProvs \cup MoreValidProvs \cup InvalidProvs
+ProvsBigIw == {p \in ValidProvs \cup MoreValidProvs : p.pid \in {1, 2, 3, 13, 14}}
+              \cup InvalidProvs
+ProvsBigMeth == {p \in ValidProvs \cup MoreValidProvs : p.pid \in {1, 3, 4, 15, 16}}
+                \cup {p \in InvalidProvs : p.pid \in {6, 17}}
 ProvsSim == ProvsBig
 
 NsArgsSmall ==
@@ -59,13 +68,22 @@ TargetsSmall == {<<1, "A">>, <<1, "B">>, <<1, "X">>, <<1, "S">>, <<1, "Z">>,
                  <<2, "A">>, <<2, "X">>, <<2, "S">>, <<3, "A">>}
 TargetsBig == TargetsSmall \cup {<<2, "B">>, <<2, "Z">>, <<3, "Z">>}
 
+(* descriptors that are refused as such meet only a few namespace         *)
+(* arguments (precedence of the rejection reasons), never a pragma file    *)
+InvalidNsArgs == {<<"none", <<>>>>, <<"list", <<1, 3>>>>, <<"int", <<>>>>,
+                  <<"list", <<1, 0>>>>}
 RegCalls ==
-  {[op |-> "Reg", pid |-> p.pid, ptype |-> p.ptype, base |-> p.base,
-    cn |-> p.cn, pcls |-> p.pcls, nsarg |-> a[1], nss |-> a[2],
-    pragma |-> g, setupbeh |-> sb] :
-     p \in Provs, a \in NsArgs, g \in BOOLEAN, sb \in SetupBehs}
+  {[op |-> "Reg", pid |-> q[1].pid, ptype |-> q[1].ptype, base |-> q[1].base,
+    cn |-> q[1].cn, pcls |-> q[1].pcls, nsarg |-> q[2][1], nss |-> q[2][2],
+    pragma |-> q[3], setupbeh |-> q[4], anycase |-> q[5]] :
+     q \in {x \in Provs \X NsArgs \X BOOLEAN \X SetupBehs \X BOOLEAN :
+              IF x[1] \in InvalidProvs
+              THEN x[2] \in InvalidNsArgs /\ ~x[3] /\ x[4] = "ok" /\ ~x[5]
+              ELSE (x[4] = "ok" \/ ~x[3]) /\ (x[5] => x[3])}}
 
 CreateShapes ==
+  IF IwLevel = "off" THEN {} ELSE
+  IF IwLevel = "lite" THEN {<<"none", "deleg">>} ELSE
   {<<d, "deleg">> : d \in {"none", "badprop", "wrongtype", "nokey"}}
   \cup {<<"none", b>> : b \in {"mutate", "rekey", "cimerr", "pyerr", "badret"}}
   \cup {<<"nokey", "rekey">>, <<"badprop", "cimerr">>}
@@ -75,6 +93,7 @@ CreateCalls ==
 
 Pls == {<<"s">>, <<"t">>, <<"s", "t">>, <<"t", "t">>, <<"zz">>}
 ModifyShapes ==
+  IF IwLevel \in {"lite", "off"} THEN {} ELSE
   {<<d, FALSE, <<>>, FALSE, "deleg">> :
      d \in {"none", "badprop", "wrongtype", "keychange", "clsmismatch"}}
   \cup {<<"none", TRUE, pl, gt, "deleg">> : pl \in Pls, gt \in BOOLEAN}
@@ -88,9 +107,15 @@ ModifyCalls ==
 
 DeleteCalls ==
   {[op |-> "Delete", ns |-> t[1], cls |-> t[2], k |-> k, beh |-> b] :
-     t \in Targets, k \in KeyU, b \in {"deleg", "cimerr", "pyerr", "badret"}}
+     t \in Targets, k \in KeyU,
+     b \in IF IwLevel = "off" THEN {} ELSE IF IwLevel = "lite" THEN {"deleg"}
+           ELSE {"deleg", "cimerr", "pyerr", "badret"}}
 
 InvokeShapes ==
+  IF MethLevel = "off" THEN {} ELSE
+  IF MethLevel = "lite"
+  THEN {<<"sm", "none", "seq">>, <<"m", "none", "seq">>, <<"sm", "none", "deleg">>}
+  ELSE
   {<<m, d, "seq">> : m \in {"m", "sm"},
      d \in {"none", "omit", "unknown", "wrongtype", "wrongarray", "outonly"}}
   \cup {<<m, "none", b>> : m \in {"m", "sm"},
@@ -112,6 +137,7 @@ Event(c, r, st2) ==
   ELSE c @@ r @@ [dump |-> AsSeq(st2.store)]
 
 Init == si = InitImpl /\ s = InitState /\ bad = {} /\ obs = {} /\ hist = <<>>
+        /\ sel = <<>>
 
 Do(c) ==
   LET rs == ImplStep(si, c)
@@ -123,8 +149,47 @@ Do(c) ==
             THEN {"FailedRegistrationChangedState"} ELSE {}
   /\ hist' = IF GenDepth > 0 THEN Append(hist, c) ELSE hist
 
-Next == \E c \in Calls : Do(c)
+Next == (\E c \in Calls : Do(c)) /\ UNCHANGED sel
 Spec == Init /\ [][Next]_vars
+
+(* Behaviour emission (tlc -simulate picks uniformly among ALL successors,  *)
+(* and computes them all): two-phase choice - first a selector (register,  *)
+(* or an operation on a target), then one call of that selection - so that *)
+(* a step costs tens of successor evaluations instead of thousands and the *)
+(* operations are balanced.  The first two calls register valid            *)
+(* descriptors so that most histories exercise a non-empty registry.  The  *)
+(* requirement is not evaluated here (the harness sends what the real code *)
+(* did with these calls to ProvDispatchTrace).                             *)
+GoodPids == {p.pid : p \in ValidProvs \cup MoreValidProvs}
+Selectors ==
+  {<<"Reg", 0, "">>} \cup
+  {<<o, t[1], t[2]>> : o \in {"Create", "Modify", "Delete", "Invoke"},
+                        t \in Targets}
+CallsFor(x) ==
+  IF x[1] = "RegValid"
+  THEN {c \in RegCalls : c.pid \in GoodPids /\ ImplStep(si, c)[1].ok}
+  ELSE IF x[1] = "Reg" THEN RegCalls
+  ELSE {c \in (CASE x[1] = "Create" -> CreateCalls
+                  [] x[1] = "Modify" -> ModifyCalls
+                  [] x[1] = "Delete" -> DeleteCalls
+                  [] OTHER -> InvokeCalls) : c.ns = x[2] /\ c.cls = x[3]}
+TypeOf(o) == IF o = "Invoke" THEN "meth" ELSE "iw"
+HotSelectors ==      \* operations for which a user provider is registered
+  {x \in Selectors : x[1] # "Reg" /\ Lookup(si, TypeOf(x[1]), x[2], x[3]) # 0}
+SimNext ==
+  IF sel = <<>> \/ sel[1] = "Any"
+  THEN /\ IF Len(hist) < 2 THEN sel' = <<"RegValid", 0, "">>
+          ELSE IF sel = <<>>
+          THEN \E x \in {<<"Reg", 0, "">>, <<"Any", 0, "">>} \cup HotSelectors :
+                  sel' = x
+          ELSE \E x \in Selectors : sel' = x
+       /\ UNCHANGED <<si, s, bad, obs, hist>>
+  ELSE /\ \E c \in CallsFor(sel) :
+            /\ si' = ImplStep(si, c)[2]
+            /\ hist' = Append(hist, c)
+       /\ sel' = <<>>
+       /\ UNCHANGED <<s, bad, obs>>
+SimSpec == Init /\ [][SimNext]_vars
 
 ImplRefinesReq == bad = {}
 MappingHolds ==
@@ -133,5 +198,6 @@ MappingHolds ==
 ReqWellFormed == WellFormed(s)
 FailedRegAtomic == obs = {}
 GenConstraint == GenDepth = 0 \/ Len(hist) <= GenDepth
+StoreBound == Cardinality(si.store) <= MaxStore
 View == <<si, s, bad, obs>>
 =============================================================================
